@@ -1549,7 +1549,10 @@ def first_diff(c, io, drv, kind):
         if bad:
             return (i, bad)
     if kind == "spec" and "last" in drv and io["steps"] and io["steps"][-1] is not None:
-        if io["steps"][-1]["get"] != drv["last"]:
+        # `lastAssigned` / `sdLastAssigned` of the history alone (C15.7 / C15.37); None = a name the history
+        # deletes through its attribute, where the theorem does not speak
+        if any(w is not None and g != w for g, w in zip(io["steps"][-1]["get"], drv["last"])) or \
+                len(io["steps"][-1]["get"]) != len(drv["last"]):
             return (len(io["steps"]) - 1, ["last-assigned"])
     return None
 
